@@ -445,10 +445,14 @@ theorem hadCheck_life (m : M) (h : LoadedRun m.1) : Life (hadCheck m).1 := by
     lrun_frame h1
 
 theorem hadFresh_life (m : M) (h : LoadedRun m.1) : Life (hadFresh m).1 := by
+  have h1 : LoadedRun (hadFreshInstall m).1 := by lrun_frame h
   unfold hadFresh
-  apply hadCheck_life
-  simp only [onSt_fst]
-  lrun_frame h
+  dsimp only
+  split
+  · simp only [onSt_fst]
+    have h2 : LoadedRun { (hadFreshInstall m).1 with doVerify := false } := by lrun_frame h1
+    exact h2.stop _
+  · exact hadCheck_life _ h1
 
 theorem hadTrust_life (m : M) (b : List Bool) (h : LoadedRun m.1) : Life (hadTrust m b).1 := by
   unfold hadTrust
